@@ -98,6 +98,7 @@ func driverHist(c *Ctx) {
 		for st := 0; st < steps; st++ {
 			op := J{}
 			res := J{"outcome": "none"}
+			newdig := "" // what a new object looks like before the caller touches the arguments again
 			addItem := func(f func() ast.ItemNode) {
 				var it ast.ItemNode
 				if p, _ := try(func() { it = f() }); p {
@@ -107,6 +108,7 @@ func driverHist(c *Ctx) {
 				objs = append(objs, hobj{item: it})
 				res = objs[len(objs)-1].abs()
 				res["outcome"] = "new"
+				newdig = objs[len(objs)-1].digest()
 			}
 			addMsg := func(f func() *ast.DataMessage, from int) {
 				var m *ast.DataMessage
@@ -122,6 +124,7 @@ func driverHist(c *Ctx) {
 				objs = append(objs, hobj{msg: m})
 				res = objs[len(objs)-1].abs()
 				res["outcome"] = "new"
+				newdig = objs[len(objs)-1].digest()
 			}
 			its, ms := items(), msgs()
 			kind := g.pick(16)
@@ -141,6 +144,7 @@ func driverHist(c *Ctx) {
 					objs = append(objs, hobj{ctrl: m})
 					res = objs[len(objs)-1].abs()
 					res["outcome"] = "new"
+					newdig = objs[len(objs)-1].digest()
 				}
 				scribbleBytes(h)
 			case kind == 15:
@@ -157,6 +161,7 @@ func driverHist(c *Ctx) {
 					objs = append(objs, hobj{ctrl: m})
 					res = objs[len(objs)-1].abs()
 					res["outcome"] = "new"
+					newdig = objs[len(objs)-1].digest()
 				}
 				scribbleBytes(buf)
 			case kind == 0 || len(its) == 0:
@@ -268,7 +273,7 @@ func driverHist(c *Ctx) {
 			for k, o := range objs {
 				dig[k] = o.digest()
 			}
-			c.emit(i, J{"ev": "step", "op": op, "res": res, "dig": dig, "step": st})
+			c.emit(i, J{"ev": "step", "op": op, "res": res, "dig": dig, "newdig": newdig, "step": st})
 		}
 		c.count("hist.histories")
 	}
